@@ -122,7 +122,7 @@ func CheckTape(pj *simdjson.ParsedJson, allowNop bool) error {
 		if isKey && tag != '"' {
 			return fmt.Errorf("tape[%d]: object key position holds tag %q", i, tag)
 		}
-		if f.kind == 'r' && tag != '{' && tag != '[' {
+		if f.kind == 'r' && tag != '{' && tag != '[' && !(allowNop && tag == 'n') {
 			return fmt.Errorf("tape[%d]: root holds tag %q, expected object or array", i, tag)
 		}
 		adv := 1
